@@ -83,6 +83,10 @@ class Check:
             viol_lines.append('VIOLATION property=%s replay=%s' % (v.prop, path))
             log('  %s: %s' % (v.signature(), v.detail[:300]))
             self.exit_code = max(self.exit_code, 1)
+        if self.ev.evaluations == 0 or len(self.ev.distinct) < 2:
+            # a check that explored nothing must not look like a pass
+            self.ev.internal_errors.append({'kind': 'nothing_explored', 'evaluations': self.ev.evaluations, 'distinct': len(self.ev.distinct)})
+            self.exit_code = max(self.exit_code, 2)
         for l in sorted(set(known_lines)):
             print(l)
         for l in viol_lines:
